@@ -11,7 +11,8 @@ sqrt is an oracle: standard deviations are compared through their (exact) square
 Second stream: the 'd' acquisition variants receive exactly the epistemic standard deviation (1805 ok_lcb for LCB/LCBd,
 metamorphic equality with a stub surrogate returning (mean, std_ep) for EI/PI/MES; predict_epistemic_std itself).
 Third stream (forest_session, step-wise): ONE forest object and ONE query buffer through a script of operations - buffer
-refilled in place, returned arrays edited by the caller, refit, warm start (estimators_ extended in place), set_params /
+refilled in place, returned arrays edited by the caller, refit, warm start (estimators_ extended in place),
+set_params(n_estimators=...) WITHOUT a fit (hyper-parameter and fitted trees disagree), estimators_ pruned / merged by hand, set_params /
 attribute changes of min_variance and n_jobs, pickle / deepcopy / clone round trips, inputs as list / Fortran / view / float32 -
 every predict step checked (same oracles) against the oracle read afresh from the current estimators_; plus input_mutated,
 aliasing, n_trees, warm_start_keeps_trees, clone_params.  Model side: the session machine run/step (C18_session_* theorems).
@@ -395,6 +396,7 @@ def check_session(case):
     X, y = fit_arrays(case)
     buf = np.array(case["Xq"], dtype=float)          # the caller's buffer: same object, refilled in place
     minv, T, njobs = float(o["min_variance"]), o["n_estimators"], 1
+    param_T = T        # the hyper-parameter n_estimators; T = number of trees actually in estimators_
     res = dict(ok=True, kind="oracle", clause="", nontrivial=False, desc=describe(case) + ["ops=%d" % len(case["ops"])], sig=sig)
     m = model()
     with warnings.catch_warnings():
@@ -443,6 +445,23 @@ def check_session(case):
                 X, y = np.array(op["X"], dtype=float), np.array(op["y"], dtype=float)
                 f.set_params(warm_start=False)
                 f.fit(X, y)
+                T = param_T
+            elif kind == "set_n_estimators":   # hyper-parameter changed on a fitted forest, NO fit (warm-start protocol before the next fit)
+                param_T = int(op["value"])
+                f.set_params(n_estimators=param_T)
+                res["desc"].append("n_estimators_%s_fitted" % ("above" if param_T > T else "below" if param_T < T else "equals"))
+            elif kind == "drop_tree":          # estimators_ pruned by hand
+                if T >= 2:
+                    del f.estimators_[op["index"] % T]
+                    T -= 1
+            elif kind == "merge_forest":       # another forest's trees appended by hand
+                c2 = dict(case, opts=dict(o, n_estimators=op["extra"], seed=op["seed"]))
+                f2 = make_forest(c2, 1).fit(X, y)
+                if op.get("how") == "new_list":
+                    f.estimators_ = list(f.estimators_) + list(f2.estimators_)
+                else:
+                    f.estimators_.extend(f2.estimators_)
+                T += op["extra"]
             elif kind == "warm":          # estimators_ is extended in place
                 probe = np.array(buf, copy=True)
                 M0, V0 = oracle_trees(f, probe)
@@ -450,6 +469,7 @@ def check_session(case):
                 f.set_params(warm_start=True, n_estimators=T + op["extra"])
                 f.fit(X, y)
                 T += op["extra"]
+                param_T = T
                 M1, V1 = oracle_trees(f, probe)
                 if len(f.estimators_) != T or not np.array_equal(M1[:M0.shape[0]], M0) or not np.array_equal(V1[:V0.shape[0]], V0):
                     return dict(res, ok=False, clause="warm_start_keeps_trees", detail=dict(step=tag, estimators=len(f.estimators_), expected=T))
@@ -473,6 +493,7 @@ def check_session(case):
                     return dict(res, ok=False, clause="clone_params", detail=dict(step=tag, before=before, after=after))
                 f.set_params(warm_start=False)
                 f.fit(X, y)
+                T = param_T
             else:
                 raise ValueError(kind)
     res["desc"].append("predicts=%d" % npred)
@@ -491,11 +512,17 @@ def gen_session(count):
             ops = [dict(op="predict", how="buf")]
             for _ in range(rng.randint(2, 7)):
                 r = rng.random()
-                if r < 0.22:
+                if r < 0.15:
                     ops.append(dict(op="refill", Xq=gen_queries(rng, c["X"], nq)))
-                elif r < 0.36:
+                elif r < 0.25:
                     ops.append(dict(op="scribble"))
+                elif r < 0.36:
+                    ops.append(dict(op="set_n_estimators", value=rng.choice([1, 2, 3, 5, 8, 20, 40])))
+                elif r < 0.42:
+                    ops.append(dict(op="drop_tree", index=rng.randrange(64)))
                 elif r < 0.48:
+                    ops.append(dict(op="merge_forest", extra=rng.randint(1, 4), seed=rng.randrange(2 ** 31), how=rng.choice(["extend", "new_list"])))
+                elif r < 0.53:
                     ops.append(dict(op="warm", extra=rng.randint(1, 4)))
                 elif r < 0.58:
                     n2 = rng.choice([2, 3, 5, 12, 30])
@@ -703,7 +730,7 @@ def streams(tier):
     except Exception:
         pass  # the checks import again and report the exception
     return [
-        Stream("forest_predict", gen_predict(6000 if th else 500), robust(check_predict), shrink, timeout=3 * ATTEMPT_S),
-        Stream("acq_d", gen_acq(2500 if th else 150), robust(check_acq), shrink, timeout=3 * ATTEMPT_S),
+        Stream("forest_predict", gen_predict(6000 if th else 400), robust(check_predict), shrink, timeout=3 * ATTEMPT_S),
+        Stream("acq_d", gen_acq(2500 if th else 120), robust(check_acq), shrink, timeout=3 * ATTEMPT_S),
         Stream("forest_session", gen_session(1500 if th else 120), robust(check_session), shrink_session, timeout=3 * ATTEMPT_S),
     ]
